@@ -88,9 +88,9 @@ def rule_tofrom(ctx: Ctx):
             rep.check(v == f"{cls_}(self)", "C15.to/from", f.loc(), f"State.{prop} builds on this very state", f.key, f"return {v}")
 
 
-def rule_any(ctx: Ctx):
+def rule_any(ctx: Ctx, rule: str = "C15.any"):
     rep = ctx.rep
-    c09.rule_any(ctx, rule="C15.any")
+    c09.rule_any(ctx, rule=rule)
     # the expansion must see the complete state list
     g = callgraph(ctx)
     target = ctx.fn("AnyState._on_event_defined")
@@ -100,11 +100,11 @@ def rule_any(ctx: Ctx):
         # where is the state list taken?
         ae = ctx.fn("StateMachineMetaclass.add_event")
         site = next((n for n in own_nodes(ae.node) if isinstance(n, ast.Call) and isinstance(n.func, ast.Attribute) and n.func.attr == "_on_event_defined"), None)
-        rep.violation("C15.any", ae.loc(site), "from_.any() is expanded while the class attributes are still being visited: states declared "
+        rep.violation(rule, ae.loc(site), "from_.any() is expanded while the class attributes are still being visited: states declared "
                       "after the event do not get the transition (differs from declaring the transition on every non-final state)",
                       ae.key, norm_stmt(site) if site is not None else "_on_event_defined reached from add_from_attributes")
     else:
-        rep.ok("C15.any", afa.loc(), "the any() expansion runs after all states of the class are registered")
+        rep.ok(rule, afa.loc(), "the any() expansion runs after all states of the class are registered")
     tl = ctx.fn("TransitionList._on_event_defined")
     for p in ctx.paths(tl, inline=None, exc_edges="none", unroll=1):
         evs = p.events
@@ -114,7 +114,7 @@ def rule_any(ctx: Ctx):
                 kw = {k.arg: show(k.value) for k in e.term.keywords}
                 ok = bool(its) and show(its[0].term) == "self.transitions" and xshow(e.term.func.value, evs) == f"{show(its[-1].x['elem'])}.source" and \
                     kw.get("transition") == show(its[-1].x["elem"]) and kw.get("states") == tl.params[2] and kw.get("event") == tl.params[1]
-                rep.check(ok, "C15.any", e.loc(), "every transition of the event is offered to its source state for expansion", tl.key, norm_stmt(e.node))
+                rep.check(ok, rule, e.loc(), "every transition of the event is offered to its source state for expansion", tl.key, norm_stmt(e.node))
 
 
 def rule_wiring(ctx: Ctx):
@@ -213,6 +213,18 @@ def rule_attributes(ctx: Ctx):
     rep.check(ok_raise, "C15.events", ur.loc(), "an event that never got an id is an InvalidDefinition", ur.key, "no InvalidDefinition path")
 
 
+def _is_deepcopy(ctx: Ctx, call: ast.Call, fn) -> bool:
+    f = show(call.func)
+    if f in ("deepcopy", "copy.deepcopy"):
+        g = ctx.r.lookup_global(f.split(".")[0], fn.module)
+        # `from copy import copy as deepcopy` would be perverse; trust the imported name
+        return not (g and g[0] == "ext" and g[2] == "copy" and f == "deepcopy")
+    if f == "copy":
+        g = ctx.r.lookup_global("copy", fn.module)
+        return bool(g and g[0] == "ext" and g[2] == "deepcopy")
+    return False
+
+
 def rule_copy(ctx: Ctx, rule: str = "C15.any"):
     """The per-state copies made for from_.any() keep every meaning-bearing field of each callback spec
     (guard polarity, event scoping, priority ...)."""
@@ -238,7 +250,10 @@ def rule_copy(ctx: Ctx, rule: str = "C15.any"):
         e = adds[0]
         first = expand1(e.term.args[0], evs) if e.term.args else None
         if isinstance(first, ast.Call) and show(first.func) in ("deepcopy", "copy.deepcopy", "copy", "copy.copy") and show(first.args[0]) == spec:
-            rep.ok(rule, e.loc(), "each spec is copied whole (all fields, incl. expected_value and the event condition)")
+            deep = _is_deepcopy(ctx, first, fn)
+            rep.check(not deep, rule, e.loc(), "each spec is copied whole and shares its callable: a deep copy would clone the object a bound-method "
+                      "guard/action belongs to, so the per-state copies would consult a stale clone (unlike the explicit declaration)", fn.key,
+                      norm_stmt(e.node))
             continue
         if show(e.term.args[0]) == spec:
             rep.ok(rule, e.loc(), "each spec object is carried over as is")
